@@ -42,6 +42,17 @@ class _Canon(ast.NodeTransformer):
             return ast.copy_location(ast.Assign(targets=[node.target], value=node.value, type_comment=None), node)
         return node
 
+    def visit_Assign(self, node):
+        # C10  `a, b = x, y`  ->  `a = x; b = y`  when the targets are plain names none of which occurs in x, y
+        self.generic_visit(node)
+        if len(node.targets) == 1 and isinstance(node.targets[0], ast.Tuple) and isinstance(node.value, ast.Tuple) and len(node.targets[0].elts) == len(node.value.elts) >= 2 \
+                and all(isinstance(t, ast.Name) for t in node.targets[0].elts):
+            names = {t.id for t in node.targets[0].elts}
+            if len(names) == len(node.targets[0].elts) and not any(isinstance(x, ast.Name) and x.id in names for v in node.value.elts for x in ast.walk(v)) \
+                    and not any(isinstance(v, ast.Starred) for v in node.value.elts):
+                return [ast.copy_location(ast.Assign(targets=[t], value=v, type_comment=None), node) for t, v in zip(node.targets[0].elts, node.value.elts)]
+        return node
+
     def visit_For(self, node):
         # C9  `for x in (A, B): S(x)`  ->  `S(A); S(B)`  for a display of at most 8 plain names / dotted names (a loop over
         # classes or enum members), x a name the body neither re-binds nor deletes, no break / continue / else
